@@ -194,8 +194,29 @@ func Discharge(obls []*Obligation, opts SolveOpts, workers int, wantModels bool)
 			}
 			ground = tb.Script(gs, nil, false)
 			if d := os.Getenv("GOVC_DUMPGROUND"); d != "" {
+				// diagnostics: the ground script with the goal's quantifier-free conjuncts as get-value terms
+				var parts []*Term
+				var split func(t *Term)
+				split = func(t *Term) {
+					switch {
+					case t.op == "and":
+						for _, a := range t.args {
+							split(a)
+						}
+					case t.op == "=>":
+						parts = append(parts, t.args[0])
+						split(t.args[1])
+					case !t.hasQ:
+						parts = append(parts, t)
+					}
+				}
+				split(goal)
 				os.MkdirAll(d, 0755)
-				os.WriteFile(fmt.Sprintf("%s/%s_%d.smt2", d, sanitize(o.Name), len(jobs)), []byte(ground), 0644)
+				var sb strings.Builder
+				for i, p := range parts {
+					fmt.Fprintf(&sb, "; part %d: %s\n", i, tb.Show(p))
+				}
+				os.WriteFile(fmt.Sprintf("%s/%s_%d.smt2", d, sanitize(o.Name), len(jobs)), []byte(sb.String()+tb.Script(gs, parts, false)), 0644)
 			}
 		}
 		jobs = append(jobs, job{o, tb.Script(asserts, gv, false), aided, ground, small, mq})
